@@ -232,11 +232,18 @@ def ImplAttr.set (a : ImplAttr) : Opt → Option ImplAttr
   | .debug b => some { a with opts := { a.opts with debug := some b } }
   | _ => none
 
+/-- an optional leading keyword -/
+def stripKw (k : String) : Toks → Bool × Toks
+  | .ident s :: rest => if s == k then (true, rest) else (false, .ident s :: rest)
+  | ts => (false, ts)
+
+def parseImplOpts (st : ImplAttr) (ts : Toks) : Except PErr ImplAttr :=
+  if ts.isEmpty then .ok st else parseOptSegs ImplAttr.set st (splitCommas ts)
+
 /-- `EntraitSimpleImplAttr::parse`: `ref`? `dyn`? then options (comma separated, no trailing comma). -/
 def parseImplAttr (ts : Toks) : Except PErr ImplAttr :=
-  let (r, ts1) := match ts with | .ident "ref" :: rest => (true, rest) | _ => (false, ts)
-  let (d, ts2) := match ts1 with | .ident "dyn" :: rest => (true, rest) | _ => (false, ts1)
-  let st : ImplAttr := { dynRef := r || d }
-  if ts2.isEmpty then .ok st else parseOptSegs ImplAttr.set st (splitCommas ts2)
+  let r := stripKw "ref" ts
+  let d := stripKw "dyn" r.2
+  parseImplOpts { dynRef := r.1 || d.1 } d.2
 
 end Entrait
